@@ -718,6 +718,15 @@ func runAccept(sc acceptScenario, org *origin, hello []byte) (res acceptResult) 
 			if !r.st.TLS {
 				p.Write([]byte("GET http://")) //nolint:errcheck
 			}
+		case "mitm-silent", "mitm-hello-partial":
+			// an intercepted CONNECT, then silence (or the start of a ClientHello)
+			p.Write([]byte("CONNECT example.test:443 HTTP/1.1\r\nHost: example.test:443\r\n\r\n")) //nolint:errcheck
+			p.SetReadDeadline(time.Now().Add(time.Second))
+			http.ReadResponse(bufio.NewReader(p), &http.Request{Method: "CONNECT"}) //nolint:errcheck,bodyclose
+			p.SetReadDeadline(time.Time{})
+			if sc.PeerOp == "mitm-hello-partial" {
+				p.Write(hello[:20]) //nolint:errcheck
+			}
 		}
 	}
 	tPeers := time.Now()
@@ -738,10 +747,13 @@ func genAccept(lim limits, tier string) []acceptScenario {
 		ns = []int{1, 3, 20, 200}
 	}
 	for _, st := range stacks {
-		if st.MITM {
+		if st.MITM && st.PP {
 			continue
 		}
 		ops := []string{"silent", "head-partial"}
+		if st.MITM {
+			ops = []string{"mitm-silent", "mitm-hello-partial"}
+		}
 		if st.PP {
 			ops = append(ops, "pp-partial")
 		}
